@@ -27,8 +27,8 @@ ADDERS = [
     ('AttackGraph.add_node', 'node_id', 'node', 'next_node_id', '_id_to_node', ('C02', 'C09', 'C10')),
     ('AttackGraph.add_attacker', 'attacker_id', 'attacker', 'next_attacker_id', '_id_to_attacker',
      ('C09', 'C10')),
-    ('Model.add_asset', 'asset_id', 'asset', 'next_id', 'asset_ids', ('C05', 'C07')),
-    ('Model.add_attacker', 'attacker_id', 'attacker', 'next_id', None, ('C05', 'C07')),
+    ('Model.add_asset', 'asset_id', 'asset', 'next_id', 'asset_ids', ('C05', 'C07', 'C18', 'C19')),
+    ('Model.add_attacker', 'attacker_id', 'attacker', 'next_id', None, ('C05', 'C07', 'C18', 'C19')),
 ]
 
 
